@@ -11,7 +11,13 @@ Streams (all through the implementation, the property oracles and the extracted 
               brackets of every kind, quotes, tags, earlier whole / partial prefix occurrences, an earlier
               prefixed abbreviation), abbreviations with empty pairs [] {} (), caret at the end or before an
               auto-closed tail; exhaustive short left texts x bracket-pair shapes, then random
-  is_html     is_html / consume_quoted on tag-like texts (correspondence of the tag heuristic only)
+  tag-roundtrip  round trip after a complete HTML tag in EVERY SPELLING of its names: every identifier character
+              (each ASCII letter of both cases, each digit, '-', ':') in every place of a tag (tag name, attribute
+              name, unquoted value; the tag shapes of extract_util.TAG_CHAR_SHAPES) exhaustively, then every generated abbreviation right of tags
+              built from really used mixed-case names (DIV, MyComponent, viewBox, onClick, xlink:Href ...) and of
+              the lower-case tag contexts re-cased (upper / Title / rAnDoM / camelCase)
+  is_html     is_html / consume_quoted on tag-like texts (correspondence of the tag heuristic only), lower-case
+              and mixed-case spellings
 """
 import itertools
 
@@ -28,6 +34,7 @@ def opts_key(o):
 
 # ------------------------------------------------------------------ consistency stream
 LA_TAIL_LEN = {'quick': 3, 'thorough': 4}
+RECASED_LINE_RATE = 0.15     # share of the random lines whose ASCII letters are put into another case
 
 
 def gen_consistency(ctx):
@@ -56,6 +63,7 @@ def gen_consistency(ctx):
     ctx.cover('consistency:look-ahead-tail-cases', len(la))
     cases.extend(la)
     n_rand = 4000 if quick else 60000
+    n_recased = 0
     for _ in range(n_rand):
         r = rng.random()
         if r < 0.5:
@@ -66,6 +74,9 @@ def gen_consistency(ctx):
             g = U.AbbrGen(rng, wild=True)
             line = rng.choice(['', ' ', '<div>', 'x ']) + (g.markup() if rng.random() < 0.7 else g.stylesheet()) + \
                 rng.choice(['', ' ', ')', '"]', '}'])
+        if rng.random() < RECASED_LINE_RATE:      # the same text written in another letter case
+            line = U.recase(line, rng)[1]
+            n_recased += 1
         n = len(line)
         ps = {rng.randint(0, n) for _ in range(3)} | {n}
         if rng.random() < 0.1:
@@ -81,6 +92,7 @@ def gen_consistency(ctx):
             if rng.random() < 0.05:
                 o = {}
             cases.append((line, pos, o))
+    ctx.cover('consistency:random-lines-re-cased', n_recased)
     return cases
 
 
@@ -182,6 +194,33 @@ def gen_roundtrip(ctx):
         else:
             add(gw.stylesheet(), False, 3, True)
     ctx.cover('roundtrip:candidates-rejected-by-the-parser', stats['invalid'])
+    return out
+
+
+# ------------------------------------------------------------------ round trip after tags in every spelling
+TAG_CASE_PER_ABBR = {'quick': 2, 'thorough': 4}
+
+
+def gen_tag_roundtrip(ctx, rt_cases):
+    """Round trip after a complete HTML tag whose names are spelled with every identifier character (both letter
+    cases, digits, '-', ':').  rt_cases: the cases of gen_roundtrip (their abbreviations are reused)."""
+    rng = ctx.rng
+    tier = 'quick' if ctx.tier == 'quick' else 'thorough'
+    ma = [a for a in U.TAG_SWEEP_ABBRS if U.valid_abbreviation(a, True)]
+    ca = [a for a in U.TAG_SWEEP_ABBRS_CSS if U.valid_abbreviation(a, False)]
+    if len(ma) != len(U.TAG_SWEEP_ABBRS) or len(ca) != len(U.TAG_SWEEP_ABBRS_CSS):
+        ctx.cover('tag-roundtrip:GENERATOR-abbreviation-rejected-by-the-parser')
+    out = [(rt, False) for rt in U.tag_char_sweep(ma or ['a'], ca or ['m10'])]
+    ctx.cover('tag-roundtrip:exhaustive-identifier-character-cases', len(out))
+    seen = {}
+    for rt, wild in rt_cases:
+        markup = U.full_opts(rt.opts)['type'] == 'markup'
+        seen.setdefault((rt.abbr, markup), wild)
+    for (abbr, markup), wild in seen.items():
+        for rt in U.tag_case_rt(rng, abbr, markup, TAG_CASE_PER_ABBR[tier]):
+            out.append((rt, wild))
+    if U.TAG_NAME_CHARS_BEYOND_IDENT:
+        ctx.cover('tag-roundtrip:name-characters-beyond-letters-digits-dash-colon:ON')
     return out
 
 
@@ -307,6 +346,24 @@ def gen_html(ctx):
         else:
             t = ''.join(rng.choice(alpha) for _ in range(rng.randint(1, 14)))
         texts.append(t + ('>' if rng.random() < 0.85 else ''))
+    # the same in every spelling: each identifier character in each place of a tag, mixed-case names, re-cased tags
+    n0 = len(texts)
+    texts.extend(t for _, t in U.tag_char_lefts())
+    cased_pieces = ['<', '</', 'DIV', 'Div', 'A', ' ', '\t', 'X=Y', 'viewBox="0 0"', "onClick='Go'", 'B', '/', '>', '=', '"', 'x=Y1',
+                    'Z', 'a', 'É', '1', 'data-X', 'Ns:El', '-', ':']
+    for _ in range(1500 if quick else 20000):
+        r = rng.random()
+        if r < 0.35:
+            t = U.gen_cased_tag(rng)
+        elif r < 0.7:
+            t = U.recase(U.gen_tag(rng), rng)[1]
+        else:
+            t = ''.join(rng.choice(cased_pieces) for _ in range(rng.randint(1, 9))) + ('>' if rng.random() < 0.85 else '')
+        if r < 0.7 and rng.random() < 0.2 and len(t) > 2:      # damage it
+            i = rng.randint(0, len(t) - 2)
+            t = t[:i] + rng.choice(['', '=', '"', ' ', '<', 'X', 'x']) + t[i + 1:]
+        texts.append(t)
+    ctx.cover('is_html:mixed-case-and-identifier-character-texts', len(texts) - n0)
     return texts
 
 
@@ -371,13 +428,24 @@ def run(ctx):
         'then %d random embeddings per generated abbreviation (tame and wild) with %d prefixes and left texts mixed from '
         'code-like fragments with matched and unmatched brackets of every kind, quotes, tags, whole and partial earlier '
         'occurrences of the prefix and an earlier prefixed abbreviation; '
+        'round trip after a complete HTML tag in every spelling of its names (HTML Living Standard 13.1.2: tag and attribute names '
+        'are written in any mix of letter cases; custom elements and XML names contain - and :): each of the %d identifier '
+        'characters (A-Z, a-z, 0-9, - :) in each of %d tag shapes (inside the tag name of start / end / self-closing tags, inside '
+        'boolean / quoted / unquoted attribute names, inside unquoted values) x look-ahead on/off for markup and one stylesheet '
+        'case, then %d embeddings per generated abbreviation (tame and wild) right of tags built from really used mixed-case '
+        'names (DIV, MyComponent, foreignObject, viewBox, onClick, xlink:Href ...) and of the lower-case tag contexts re-cased '
+        '(UPPER / Title / rAnDoM / camelCase); name characters beyond the identifier alphabet (_ . @ #) are %s '
+        '(extract_util.TAG_NAME_CHARS_BEYOND_IDENT); %d%% of the random consistency lines and a third of the is_html texts are '
+        'written in mixed case as well; '
         'a case is non-trivial when extract returns a result (consistency) or is '
         'an embedded abbreviation (round trip); distinct by (line, position, options)'
     ) % (3 if quick else 4, len(U.EX_ALPHA), ''.join(U.EX_ALPHA),
          LA_TAIL_LEN['quick' if quick else 'thorough'], ''.join(U.LA_ALPHA), len(U.LA_LEFTS), len(U.LEFTS), len(U.RIGHTS),
          PREFIX_RT_EXHAUSTIVE_LEN['quick' if quick else 'thorough'], ''.join(U.BEFORE_ALPHA),
          len(U.PREFIX_SHAPES) + len(U.PREFIX_SHAPES_CSS), PREFIX_RT_PER_ABBR['quick' if quick else 'thorough'],
-         len(U.PREFIXES_RICH))
+         len(U.PREFIXES_RICH),
+         len(U.TAG_IDENT_CHARS), len(U.TAG_CHAR_SHAPES), TAG_CASE_PER_ABBR['quick' if quick else 'thorough'],
+         'explored too' if U.TAG_NAME_CHARS_BEYOND_IDENT else 'NOT explored', int(RECASED_LINE_RATE * 100))
     model = ctx.model('extract') if ok else None
     # corpus first
     cons, rts = corpus_cases(ctx)
@@ -395,6 +463,12 @@ def run(ctx):
     pcases = gen_prefix_roundtrip(ctx, cases)
     check_roundtrip(ctx, pcases, model, 'prefix-roundtrip')
     for rt, _ in pcases[len(pcases) // 3:len(pcases) // 3 + 2] + pcases[-2:]:
+        ctx.sample({'line': rt.line, 'pos': rt.pos, 'opts': rt.opts,
+                    'impl': repr(U.impl_extract(rt.line, rt.pos, rt.opts))})
+    # round trip after complete HTML tags in every spelling of their names
+    tcases = gen_tag_roundtrip(ctx, cases)
+    check_roundtrip(ctx, tcases, model, 'tag-roundtrip')
+    for rt, _ in tcases[len(tcases) // 5:len(tcases) // 5 + 1] + tcases[-1:]:
         ctx.sample({'line': rt.line, 'pos': rt.pos, 'opts': rt.opts,
                     'impl': repr(U.impl_extract(rt.line, rt.pos, rt.opts))})
     # consistency
